@@ -245,6 +245,10 @@ fn corpus_case(args: &Args, file: &PathBuf, rng: &mut Rng, mutate: bool) -> Opti
     if args.q(&format!("corpus:{name}")) {
         return None;
     }
+    if mutate && args.q("default-args-dotdot") && src.contains("..}") {
+        // mutating the numbers of an incomplete record literal lands in the known `..` defect
+        return None;
+    }
     let src = if mutate { mutate_source(&src, rng) } else { src };
     Some(Case {
         src,
@@ -265,7 +269,7 @@ pub fn meta(args: &Args) -> Value {
         "rule": "differential VM vs WASM through the CLI's code path (ExecContext / emit_wasm -> RuntimeData -> LocalBufferDriver::init, per sample set_input + run_dsp + get_output): (a) generated core-language programs with all features and dsp input streams including NaN, +-inf, -0.0, subnormals, 1e308; (b) every shipped source under lib/, examples/, tests/mmm that needs no device/file plugin, with the scheduler plugin; (c) operator/constant mutations of (b). Compared: accept/reject, channel counts, every output word bitwise (NaN==NaN), dsp return codes, flat dsp state words after every sample. Non-trivial = both back ends ran and the output stream has at least two distinct values; distinct = hash of program text + run parameters. Programs both back ends refuse alike are counted, not judged.",
         "assumptions": ["sample rate 48000 via Driver::init on both sides", "plugins other than scheduler/audio-driver builtins out of scope", "cases listed under a dynamic quarantine (decided on the reference execution) take no part in the verdict and are counted"],
         "floor": {"quick": 60, "thorough": 3000},
-        "case_timeout_s": 120,
+        "case_timeout_s": 40,
         "hang_is_violation": false,
         "budget_quick": args.cases(500, 30000),
     })
